@@ -9,7 +9,7 @@ def _s(v):
     return '' if v is None else str(v)
 
 
-def act_of(A, nc, get):
+def act_of(A, nc, get, V0=None):
     "common shape for a record action and a JSON action; get(cstate, cid) -> dict or None"
     o = dict(tag=A['tag'], msg=A['msg'], round=A['round'], quota='', votes='', nt='', residual='', surplus='', cs=[])
     if A['tag'] == 'log':
@@ -22,8 +22,12 @@ def act_of(A, nc, get):
     cs = []
     for cid in range(1, nc + 1):
         d = get(A['cstate'], cid) or {}
-        cs.append(dict(state=d.get('state', ''), code=d.get('code', ''), vote=_s(d.get('vote')), kf=_s(d.get('kf')),
-                       quot=_s(d.get('quotient')), pend=bool(d.get('pending'))))
+        v = d.get('vote')
+        # zeq: zero under the arithmetic's own equality; z: exactly zero (they differ for sub-tolerance guarded values)
+        zeq = bool(V0 is not None and v is not None and not isinstance(v, str) and v == V0)
+        z = bool(V0 is not None and v is not None and not isinstance(v, str) and not v)
+        cs.append(dict(state=d.get('state', ''), code=d.get('code', ''), vote=_s(v), kf=_s(d.get('kf')),
+                       quot=_s(d.get('quotient')), pend=bool(d.get('pending')), zeq=zeq, z=z))
     o['cs'] = cs
     return o
 
@@ -57,12 +61,16 @@ def build(E):
     nc = E.electionProfile.nCand
     X = dict(method=E.rule.method, quota_name=E.rule.quota_name, ecids=list(rec['ecids']), cids=list(rec['cids']),
              name=[rec['cdict'][c]['name'] if c in rec['cdict'] else '' for c in range(1, nc + 1)])
-    X['acts'] = [act_of(A, nc, lambda cs, cid: cs.get(cid)) for A in rec['actions']]
+    X['acts'] = [act_of(A, nc, lambda cs, cid: cs.get(cid), E.V0) for A in rec['actions']]
+    X['zero'] = str(E.V0)
     txt = E.json()
     try:
         J = json.loads(txt)
         X['json_ok'] = True
         X['json'] = [act_of(A, nc, lambda cs, cid: cs.get(str(cid))) for A in J['actions']]
+        for a, ja in zip(X['acts'], X['json']):     # the two flags are harness observations of the in-memory values, not JSON content
+            for c, jc in zip(a['cs'], ja['cs']):
+                jc['zeq'], jc['z'] = c['zeq'], c['z']
     except Exception:
         X['json_ok'] = False
         X['json'] = []
